@@ -13,6 +13,7 @@ import (
 
 func init() {
 	zzsv.Register("ZZ_C07_Histories", ZZ_C07_Histories)
+	zzsv.Register("ZZ_C07_Context", ZZ_C07_Context)
 }
 
 type zzC07Obj struct {
@@ -95,4 +96,66 @@ func ZZ_C07_Histories(sv *zzsv.T) {
 	zzDescribe(sv, "fresh", o2, e2)
 	zzCompareTwo(sv, "C07", used, fresh, o1, o2, e1, e2, trUsed, trFresh, persistent)
 	sv.Assert("C07.scopes_after", used.environment.ScopeDepth() == fresh.environment.ScopeDepth())
+}
+
+// ZZ_C07_Context: the evaluator's context is part of what a run is given,
+// not of its history: after k earlier runs (paths chosen by the solver), a
+// run under a context that is already cancelled - or that the host cancels
+// from inside its c-th callback of that run - ends exactly like the same run
+// on a freshly prepared evaluator holding the same variables and a context
+// in the same state.
+func ZZ_C07_Context(sv *zzsv.T) {
+	src := "n = n + 1; t(n); if (F > 10) { foreach x in [1, 2, 3] { t(x + F); } } if (F == 5) { t(5); return n; } t(F); return n + F;"
+	sv.Note("script", src)
+	k := sv.Param("history", 2, 4)
+	mode := sv.Choice("cancel", 2) // 0: cancelled before the last run; 1: from inside its c-th callback
+	cancelAt := int64(1 + sv.Choice("cancel_at_call", 3))
+	mk := func(tr *[]object.Object, ctx *zzsv.SymCtx, live *bool) *Eval {
+		e := New(src)
+		calls := int64(0)
+		e.AddFunction("t", func(args []object.Object) object.Object {
+			*tr = append(*tr, args[0])
+			if *live {
+				calls++
+				if mode == 1 && calls == cancelAt {
+					ctx.Cancel()
+				}
+			}
+			return &object.Void{}
+		})
+		e.SetContext(ctx)
+		return e
+	}
+	var trUsed, trFresh []object.Object
+	liveUsed, liveFresh := false, true
+	ctxUsed := sv.Ctx("never_by_poll", 1000000)
+	ctxFresh := sv.Ctx("never_by_poll2", 1000000)
+	sv.Assume(ctxUsed.K == 1000000 && ctxFresh.K == 1000000)
+	used := mk(&trUsed, ctxUsed, &liveUsed)
+	used.SetVariable("n", &object.Integer{Value: 0})
+	sv.Assume(used.Prepare() == nil)
+	for i := 0; i < k; i++ {
+		_, err := used.Execute(zzC07Obj{F: sv.Int64("F")})
+		sv.Assert("C07.ctx.history_runs_complete", err == nil)
+	}
+	fresh := mk(&trFresh, ctxFresh, &liveFresh)
+	if iv, ok := used.GetVariable("n").(*object.Integer); ok {
+		fresh.SetVariable("n", &object.Integer{Value: iv.Value})
+	}
+	sv.Assume(fresh.Prepare() == nil)
+	if mode == 0 {
+		ctxUsed.Cancel()
+		ctxFresh.Cancel()
+	}
+	liveUsed = true
+	o := zzC07Obj{F: sv.Int64("F")}
+	trUsed, trFresh = nil, nil
+	o1, e1 := used.Execute(o)
+	o2, e2 := fresh.Execute(o)
+	zzDescribe(sv, "used", o1, e1)
+	zzDescribe(sv, "fresh", o2, e2)
+	zzCompareTwo(sv, "C07.ctx", used, fresh, o1, o2, e1, e2, trUsed, trFresh, []string{"n", "x"})
+	if mode == 0 {
+		sv.Assert("C07.ctx.cancelled_context_prevents_the_run", e1 != nil && len(trUsed) == 0)
+	}
 }
